@@ -1,6 +1,6 @@
 (* C13 -- The three HTML policies differ only at the HTML elements (partial).  Property theorems only. *)
 From Rimu Require Import Base Regex RegexParse Str Types Tables Guards State Inline Block
-  Frame FrameBlock FrameInst OptionsLemmas MiscLemmas Plain HtmlTag.
+  Frame FrameBlock FrameInst OptionsLemmas MiscLemmas Plain PlainDoc HtmlTag ParaDoc.
 
 (* the policy is a function of the two low bits of the safe mode only *)
 Theorem C13_policy_bits : forall m,
@@ -42,3 +42,14 @@ Example C13_ex_inline_tag :
   spans_render 6 (e 3%Z) $"some <b>bold, text" = iret $"some &lt;b&gt;bold, text" /\
   spans_render 6 (e 0%Z) $"some <b>bold, text" = iret $"some <b>bold, text".
 Proof. vm_compute. repeat split. Qed.
+
+(* the same end to end: the one-line document  pre <name> post  renders to  <p>pre F post</p>  with F what the policy of the
+   session's safe mode makes of the tag, and the session (log included) unchanged -- so the three policies give documents that
+   differ at the tag and nowhere else *)
+Theorem C13_tag_document : forall n s c pre name post,
+  quiet_default s -> In c word_first -> RegexAnalysis.over word2_alphabet (c :: pre) -> name_ok2 name ->
+  RegexAnalysis.over word2_alphabet name -> RegexAnalysis.over word2_alphabet post ->
+  doc_render (S (S (S (S (S (S n)))))) ((c :: pre) ++ 60 :: name ++ 62 :: post) s =
+  Ok ($"<p>" ++ ((c :: pre) ++ htmlSafeModeFilter (ienv_of s) (60 :: name ++ [62]) ++ post) ++ $"</p>", s).
+Proof. exact tag_document. Qed.
+Print Assumptions C13_tag_document.
